@@ -995,4 +995,311 @@ theorem fire_sim (cfg : Cfg) (s : TState) (cs : S) (target dl : Nat) (r : Role) 
         have : muR {} target = 0 := by simp [muR]
         omega
 
+theorem mu_pos_of_due {s : TState} {target : Nat} {x : Nat × Role × Bool}
+    (h : nextDue s target = some x) : 1 ≤ mu s target := by
+  obtain ⟨dl, r, isHold⟩ := x
+  obtain ⟨hdl, hslot, -⟩ := nextDue_some h
+  rw [mu_split s target r]
+  cases isHold
+  · simp only [Bool.false_eq_true, if_false] at hslot
+    simp only [muR, hslot, if_pos hdl]; omega
+  · simp only [if_true] at hslot
+    simp only [muR, hslot, if_pos hdl]; omega
+
+theorem overdue_none (cfg : Cfg) (s : TState) (cs : S) (target : Nat) (h : TRel cfg s cs)
+    (hnd : nextDue s target = none) (r : Role) : overdue cs r target = none := by
+  have hr := h.role r
+  obtain ⟨hh, hk⟩ := nextDue_none hnd r
+  unfold overdue
+  dsimp only
+  split
+  · next hc =>
+    obtain ⟨hup, hcf, hne⟩ := hc
+    cases hconn : s.peer.connection r with
+    | none =>
+      rw [hconn] at hr
+      rw [hr.2] at hup; cases hup
+    | some c =>
+      rw [hconn] at hr
+      obtain ⟨-, -, h3 | ⟨-, -, -, -, -, -, a7⟩⟩ := hr
+      · rw [h3.2.1] at hcf; cases hcf
+      · obtain ⟨b1, b2, -, -⟩ := a7 hne
+        have := hh _ b1
+        have := hk _ b2
+        rw [if_neg (by omega), if_neg (by omega)]
+  · rfl
+
+theorem terminal_rel (cfg : Cfg) (s : TState) (cs : S) (target : Nat) (h : TRel cfg s cs)
+    (hnow : s.now ≤ target) (hnd : nextDue s target = none) :
+    TRel cfg { s with now := max s.now target } { cs with now := target } := by
+  refine ⟨h.cfgEq, by simp; omega, fun r => ?_⟩
+  obtain ⟨hh, hk⟩ := nextDue_none hnd r
+  simp only [slots_with_now, S.get_with_now]
+  exact (h.role r).mono (fun d hd _ => by have := hh d hd; omega) (fun d hd _ => by have := hk d hd; omega)
+
+theorem advance_sim (cfg : Cfg) (target : Nat) : ∀ (fuel : Nat) (s : TState) (cs : S),
+    TRel cfg s cs → s.now ≤ target → mu s target ≤ fuel →
+    ∃ cs', onFiredAll cs target (advance fuel s target []).2 = .ok cs' ∧
+      TRel cfg (advance fuel s target []).1 { cs' with now := target } ∧
+      overdue cs' .active target = none ∧ overdue cs' .passive target = none := by
+  intro fuel
+  induction fuel with
+  | zero =>
+    intro s cs h hnow hmu
+    have hnd : nextDue s target = none := by
+      cases hx : nextDue s target with
+      | none => rfl
+      | some x => have := mu_pos_of_due hx; omega
+    rw [advance_zero]
+    exact ⟨cs, rfl, terminal_rel cfg s cs target h hnow hnd,
+      overdue_none cfg s cs target h hnd _, overdue_none cfg s cs target h hnd _⟩
+  | succ n ih =>
+    intro s cs h hnow hmu
+    cases hnd : nextDue s target with
+    | none =>
+      rw [advance_succ_none hnd]
+      exact ⟨cs, rfl, terminal_rel cfg s cs target h hnow hnd,
+        overdue_none cfg s cs target h hnd _, overdue_none cfg s cs target h hnd _⟩
+    | some x =>
+      obtain ⟨dl, r, isHold⟩ := x
+      obtain ⟨cs1, h1, h2, h3, h4⟩ := fire_sim cfg s cs target dl r isHold h hnow hnd
+      obtain ⟨cs', k1, k2, k3, k4⟩ := ih _ cs1 h2 h3 (by omega)
+      rw [advance_succ_some hnd, advance_acc]
+      refine ⟨cs', ?_, k2, k3, k4⟩
+      simp only [List.reverse_cons, List.reverse_nil, List.nil_append, List.singleton_append,
+        onFiredAll, h1]
+      exact k1
+
+theorem mu_bound (cfg : Cfg) (s : TState) (cs : S) (h : TRel cfg s cs) (d : Nat) :
+    mu s (s.now + d) ≤ 2 * d + 8 := by
+  have key : ∀ r, muR (s.slots r) (s.now + d) ≤ d + 2 := by
+    intro r
+    have hk := RoleRel_ka_ge (h.role r)
+    unfold muR
+    cases hh : (s.slots r).hold <;> cases hka : (s.slots r).ka
+    all_goals simp only []
+    all_goals try (have := hk _ hka)
+    all_goals repeat' split
+    all_goals omega
+  have := key .active
+  have := key .passive
+  unfold mu; omega
+
+theorem up_eq {cfg : Cfg} {s : TState} {cs : S} (h : TRel cfg s cs) (r : Role) :
+    (cs.get r).up = isUp (s.peer.state r) := by
+  have hr := h.role r
+  cases hconn : s.peer.connection r with
+  | none =>
+    rw [hconn] at hr
+    rw [hr.2, state_of_none hconn]; rfl
+  | some c =>
+    rw [hconn] at hr
+    rw [hr.2.1, state_of_some hconn, ConnRel.state_ne_idle hr]
+
+/-- A `wait d` step is accepted by the observer and keeps the relation. -/
+theorem wait_sim (cfg : Cfg) (s : TState) (cs : S) (h : TRel cfg s cs) (d : Nat) :
+    ∃ cs', stepOk cfg cs (mkStep s (.wait d)) = .ok cs' ∧ TRel cfg (tstep s (.wait d)).1 cs' := by
+  obtain ⟨cs1, k1, k2, k3, k4⟩ := advance_sim cfg (s.now + d) (2 * d + 8) s cs h (by omega)
+    (mu_bound cfg s cs h d)
+  refine ⟨{ cs1 with now := s.now + d }, ?_, by simpa [tstep] using k2⟩
+  have ua := up_eq k2 .active
+  have up := up_eq k2 .passive
+  simp only [S.get] at ua up
+  simp only [stepOk, mkStep, tstep, onWait, h.nowEq, k1, k3, k4]
+  rw [if_neg]
+  simp [ua, up]
+
+/-! ### 7. Whole runs -/
+
+theorem tev_sim (cfg : Cfg) (hv : cfgValid cfg = true) (s : TState) (cs : S) (h : TRel cfg s cs)
+    (e : TEv) (hw : wfTEv e = true) :
+    ∃ cs', stepOk cfg cs (mkStep s e) = .ok cs' ∧ TRel cfg (tstep s e).1 cs' := by
+  cases e with
+  | ev r e => exact ev_sim cfg hv s cs h r e hw
+  | wait d => exact wait_sim cfg s cs h d
+
+/-- The timed state reached from `s` by a history. -/
+def reach (s : TState) : List TEv → TState
+  | [] => s
+  | e :: rest => reach (tstep s e).1 rest
+
+/-- The observer's state after checking a trace (`none` if it rejects). -/
+def specAfter (cfg : Cfg) (cs : S) : List TStep → Option S
+  | [] => some cs
+  | st :: rest =>
+      match stepOk cfg cs st with
+      | .error _ => none
+      | .ok cs' => specAfter cfg cs' rest
+
+theorem wfHist_cons {e : TEv} {rest : List TEv} (h : wfHist (e :: rest) = true) :
+    wfTEv e = true ∧ wfHist rest = true := by
+  simpa [wfHist] using h
+
+theorem checkFrom_runFrom (cfg : Cfg) (hv : cfgValid cfg = true) : ∀ (h : List TEv) (s : TState)
+    (cs : S) (i : Nat), wfHist h = true → TRel cfg s cs →
+    checkFrom cfg cs i (Timed.runFrom s h) = .ok := by
+  intro h
+  induction h with
+  | nil => intro s cs i _ _; rfl
+  | cons e rest ih =>
+    intro s cs i hw hr
+    obtain ⟨hw1, hw2⟩ := wfHist_cons hw
+    obtain ⟨cs', h1, h2⟩ := tev_sim cfg hv s cs hr e hw1
+    rw [runFrom_cons]
+    simp only [checkFrom, h1]
+    exact ih _ cs' (i + 1) hw2 h2
+
+theorem reach_rel (cfg : Cfg) (hv : cfgValid cfg = true) : ∀ (h : List TEv) (s : TState) (cs : S),
+    wfHist h = true → TRel cfg s cs →
+    ∃ cs', specAfter cfg cs (Timed.runFrom s h) = some cs' ∧ TRel cfg (reach s h) cs' := by
+  intro h
+  induction h with
+  | nil => intro s cs _ hr; exact ⟨cs, rfl, hr⟩
+  | cons e rest ih =>
+    intro s cs hw hr
+    obtain ⟨hw1, hw2⟩ := wfHist_cons hw
+    obtain ⟨cs', h1, h2⟩ := tev_sim cfg hv s cs hr e hw1
+    obtain ⟨cs'', k1, k2⟩ := ih _ cs' hw2 h2
+    refine ⟨cs'', ?_, k2⟩
+    rw [runFrom_cons]
+    simp only [specAfter, h1]
+    exact k1
+
+/-- Master theorem: the reference checker accepts every run of the timed model. -/
+theorem check_run_ok (cfg : Cfg) (hv : cfgValid cfg = true) (h : List TEv) (hw : wfHist h = true) :
+    check cfg (Timed.run cfg h) = .ok :=
+  checkFrom_runFrom cfg hv h _ {} 0 hw (trel_init cfg)
+
+/-! ### 8. What acceptance by the observer implies (facts about `TimedSpec` alone) -/
+
+theorem onFired_other {cs : S} {target : Nat} {f : Fired} {cs' : S}
+    (h : onFired cs target f = .ok cs') {r : Role} (hr : r ≠ f.role) : cs'.get r = cs.get r := by
+  obtain ⟨ft, fr, fh, fo⟩ := f
+  unfold onFired at h
+  dsimp only at h hr
+  repeat' split at h
+  all_goals cases h
+  all_goals (cases r <;> cases fr <;> simp_all [S.get, S.set])
+
+theorem onFired_self {cs : S} {target : Nat} {f : Fired} {cs' : S}
+    (h : onFired cs target f = .ok cs') :
+    (cs.get f.role).up = true ∧ cs.now ≤ f.time ∧ f.time ≤ target ∧
+    (f.isHold = true → hasHoldDown f.role f.outs = true ∧ cs'.get f.role = {} ∧
+        ((cs.get f.role).confirmed = true →
+          (cs.get f.role).neg ≠ 0 ∧ f.time = (cs.get f.role).lastRx + (cs.get f.role).neg)) ∧
+    (f.isHold = false → (cs.get f.role).confirmed = true ∧ (cs.get f.role).neg ≠ 0 ∧
+        f.time = (cs.get f.role).lastKa + (cs.get f.role).neg / 3 ∧
+        hasKeepalive f.role f.outs = true ∧
+        cs'.get f.role = { cs.get f.role with lastKa := f.time }) := by
+  obtain ⟨ft, fr, fh, fo⟩ := f
+  unfold onFired at h
+  dsimp only at h ⊢
+  repeat' split at h
+  all_goals cases h
+  all_goals (cases fr <;> simp_all [S.get, S.set] <;> omega)
+
+theorem onFiredAll_cons {cs : S} {target : Nat} {f : Fired} {fs : List Fired} {cs' : S}
+    (h : onFiredAll cs target (f :: fs) = .ok cs') :
+    ∃ cs1, onFired cs target f = .ok cs1 ∧ onFiredAll cs1 target fs = .ok cs' := by
+  simp only [onFiredAll] at h
+  cases h1 : onFired cs target f with
+  | error e => rw [h1] at h; cases h
+  | ok cs1 => rw [h1] at h; exact ⟨cs1, rfl, h⟩
+
+/-- A role the observer does not consider live gets no firing and stays as it is. -/
+theorem onFiredAll_dead (target : Nat) : ∀ (fs : List Fired) (cs cs' : S) (r : Role),
+    onFiredAll cs target fs = .ok cs' → (cs.get r).up = false →
+    (∀ f ∈ fs, f.role ≠ r) ∧ cs'.get r = cs.get r := by
+  intro fs
+  induction fs with
+  | nil => intro cs cs' r h _; simp only [onFiredAll] at h; cases h; simp
+  | cons f rest ih =>
+    intro cs cs' r h hup
+    obtain ⟨cs1, h1, h2⟩ := onFiredAll_cons h
+    have hne : f.role ≠ r := by
+      intro he; have := (onFired_self h1).1; rw [he, hup] at this; cases this
+    have e1 := onFired_other h1 (Ne.symm hne)
+    obtain ⟨k1, k2⟩ := ih cs1 cs' r h2 (by rw [e1]; exact hup)
+    refine ⟨?_, by rw [k2, e1]⟩
+    intro f' hf'
+    rcases List.mem_cons.1 hf' with rfl | hf'
+    · exact hne
+    · exact k1 f' hf'
+
+/-- Negotiated hold time zero: the observer accepts no firing for that role. -/
+theorem onFiredAll_zero (target : Nat) : ∀ (fs : List Fired) (cs cs' : S) (r : Role),
+    onFiredAll cs target fs = .ok cs' →
+    (cs.get r).confirmed = true → (cs.get r).neg = 0 →
+    (∀ f ∈ fs, f.role ≠ r) ∧ cs'.get r = cs.get r := by
+  intro fs
+  induction fs with
+  | nil => intro cs cs' r h _ _; simp only [onFiredAll] at h; cases h; simp
+  | cons f rest ih =>
+    intro cs cs' r h hcf hz
+    obtain ⟨cs1, h1, h2⟩ := onFiredAll_cons h
+    have hne : f.role ≠ r := by
+      intro he
+      obtain ⟨-, -, -, k1, k2⟩ := onFired_self h1
+      rw [he] at k1 k2
+      cases hh : f.isHold with
+      | true => exact ((k1 hh).2.2 hcf).1 hz
+      | false => exact (k2 hh).2.1 hz
+    have e1 := onFired_other h1 (Ne.symm hne)
+    obtain ⟨k1, k2⟩ := ih cs1 cs' r h2 (by rw [e1]; exact hcf) (by rw [e1]; exact hz)
+    refine ⟨?_, by rw [k2, e1]⟩
+    intro f' hf'
+    rcases List.mem_cons.1 hf' with rfl | hf'
+    · exact hne
+    · exact k1 f' hf'
+
+/-- Negotiated hold time `n ≠ 0`: either the role's hold timer never fires in the list and its
+    record keeps `lastRx`/`neg`, or it fires exactly at `lastRx + n` with a hold-expiry SessionDown. -/
+theorem onFiredAll_nonzero (target : Nat) : ∀ (fs : List Fired) (cs cs' : S) (r : Role),
+    onFiredAll cs target fs = .ok cs' →
+    (cs.get r).up = true → (cs.get r).confirmed = true → (cs.get r).neg ≠ 0 →
+    ((∀ f ∈ fs, f.role = r → f.isHold = false) ∧ (cs'.get r).up = true ∧
+        (cs'.get r).confirmed = true ∧ (cs'.get r).neg = (cs.get r).neg ∧
+        (cs'.get r).lastRx = (cs.get r).lastRx) ∨
+    ((∃ f ∈ fs, f.role = r ∧ f.isHold = true ∧ f.time = (cs.get r).lastRx + (cs.get r).neg ∧
+        f.time ≤ target ∧ hasHoldDown r f.outs = true) ∧ cs'.get r = {}) := by
+  intro fs
+  induction fs with
+  | nil =>
+    intro cs cs' r h hup hcf hne
+    simp only [onFiredAll] at h; cases h
+    exact Or.inl ⟨by simp, hup, hcf, rfl, rfl⟩
+  | cons f rest ih =>
+    intro cs cs' r h hup hcf hne
+    obtain ⟨cs1, h1, h2⟩ := onFiredAll_cons h
+    by_cases he : f.role = r
+    · obtain ⟨-, -, ht, k1, k2⟩ := onFired_self h1
+      rw [he] at k1 k2
+      cases hh : f.isHold with
+      | true =>
+        obtain ⟨a1, a2, a3⟩ := k1 hh
+        obtain ⟨-, a4⟩ := a3 hcf
+        have hdead := onFiredAll_dead target rest cs1 cs' r h2 (by rw [a2]; rfl)
+        exact Or.inr ⟨⟨f, List.mem_cons_self, he, hh, a4, ht, a1⟩, by rw [hdead.2, a2]⟩
+      | false =>
+        obtain ⟨-, -, -, -, a5⟩ := k2 hh
+        rcases ih cs1 cs' r h2 (by rw [a5]; exact hup) (by rw [a5]; exact hcf) (by rw [a5]; exact hne) with
+          ⟨b1, b2, b3, b4, b5⟩ | ⟨⟨f', hf', c1, c2, c3, c4, c5⟩, b2⟩
+        · refine Or.inl ⟨?_, b2, b3, by rw [b4, a5], by rw [b5, a5]⟩
+          intro f' hf' hr'
+          rcases List.mem_cons.1 hf' with rfl | hf'
+          · exact hh
+          · exact b1 f' hf' hr'
+        · refine Or.inr ⟨⟨f', List.mem_cons_of_mem _ hf', c1, c2, ?_, c4, c5⟩, b2⟩
+          rw [c3, a5]
+    · have e1 := onFired_other h1 (Ne.symm he)
+      rcases ih cs1 cs' r h2 (by rw [e1]; exact hup) (by rw [e1]; exact hcf) (by rw [e1]; exact hne) with
+        ⟨b1, b2, b3, b4, b5⟩ | ⟨⟨f', hf', c1, c2, c3, c4, c5⟩, b2⟩
+      · refine Or.inl ⟨?_, b2, b3, by rw [b4, e1], by rw [b5, e1]⟩
+        intro f' hf' hr'
+        rcases List.mem_cons.1 hf' with rfl | hf'
+        · exact absurd hr' he
+        · exact b1 f' hf' hr'
+      · refine Or.inr ⟨⟨f', List.mem_cons_of_mem _ hf', c1, c2, ?_, c4, c5⟩, b2⟩
+        rw [c3, e1]
+
 end Rbgp.Fsm.TimedProofs
